@@ -182,6 +182,59 @@ def run(check, mirror, tier):
     jobs.append(lambda c: decide(c, crate, "scope_balance/build_filter", setup_filter, post_common, lambda i, rb: replay_scope("filter", i, rb), rb,
                                  models=MODELS, unwind=6 * (L + 2), describe=lambda m, inputs: {k: model_value(m, v) for k, v in inputs.items() if not k.startswith("_")},
                                  budget_s=900, min_paths=2, timeout_ms=20000))
+    # --- boxed context of a decision model (model-evaluator) -------------------------------------------------------------------------------
+    crate_me = MirCrate(mirror, ["model-evaluator", "feel"], overflow_checks=True, enum_crates=("common", "feel", "model"))
+    check.bounds.append("boxed context: 0..2 named entries, optionally followed by the unnamed result entry; entry values arbitrary")
+
+    def setup_boxed(ex, st):
+        sref, ctxs = scope_value(ex, st, 1)
+        n = ex.fresh_int(st, "usize", "named_entries", constrain=False)
+        ex.assume(st, z3.And(n.e >= 0, n.e <= 2))
+        has_result = z3.Bool(ex.fresh_name("has_result_entry"))
+        total = z3.If(has_result, n.e + 1, n.e)
+        box = lambda s_: Ref(ex.new_cell(s_, oracle_evaluator(ex, sref, ctxs, ["Number", "Null", "Boolean"], log_key="entry"), "box"))
+        named = lambda s_, k: Adt("tuple", None, (some(Opaque("Name", z3.IntVal(700 + k))), box(s_)))
+        unnamed = lambda s_: Adt("tuple", None, (none(), box(s_)))
+        inputs = dict(named_entries=n.e, has_result_entry=has_result, _sref=sref, _ctxs=ctxs)
+        caps = closure_captures(crate_me, "builders::build_context_evaluator")
+        if caps != ["entry_evaluators"]:
+            raise MirUnsupported("build_context_evaluator's closure captures %s, the obligation knows ['entry_evaluators']" % caps)
+
+        def runner(ex, st):
+            for st1, nn in ex.enum_values(st, n.e, limit=4):
+                for flag in (True, False):
+                    for st2 in ex.branch(st1, has_result if flag else z3.Not(has_result)):
+                        items = [named(st2, k) for k in range(nn)] + ([unnamed(st2)] if flag else [])
+                        env = Ref(ex.new_cell(st2, Adt("closure", "build_context_evaluator", [VecV(z3.IntVal(len(items)), items, "entry")]), "env"))
+                        st2.log.append(("shape", nn, flag))
+                        yield from ex.run("builders::build_context_evaluator::{closure#0}", [env, sref], st2)
+        return runner, None, inputs
+
+    def post_boxed(ex, o, inputs):
+        props = post_common(ex, o, inputs)
+        ents = [e for e in o.st.log if e[0] == "entry"]
+        shape = [e for e in o.st.log if e[0] == "shape"][0]
+        props[1] = ("while an entry is evaluated the caller's contexts are still underneath", z3.BoolVal(all(e[2] for e in ents)))
+        props.append(("every entry is evaluated exactly once, on top of ONE temporary context above the caller's", z3.BoolVal(
+            len(ents) == shape[1] + (1 if shape[2] else 0) and all(e[1] == len(inputs["_ctxs"]) + 1 for e in ents))))
+        props.append(("reach:two entries and a result", z3.BoolVal(shape[1] == 2 and shape[2])))
+        return props
+
+    def replay_boxed(i, rb):
+        xml = ('<?xml version="1.0" encoding="UTF-8"?><definitions namespace="https://verif" name="m" id="_m" xmlns="https://www.omg.org/spec/DMN/20191111/MODEL/">'
+               '<decision name="d" id="_d"><variable name="d"/><context>'
+               '<contextEntry><variable name="a"/><literalExpression><text>1</text></literalExpression></contextEntry>'
+               '<contextEntry><variable name="b"/><context>'
+               '<contextEntry><variable name="a"/><literalExpression><text>2</text></literalExpression></contextEntry>'
+               '<contextEntry><variable name="r"/><literalExpression><text>a * 10</text></literalExpression></contextEntry></context></contextEntry>'
+               '<contextEntry><variable name="c"/><literalExpression><text>a</text></literalExpression></contextEntry>'
+               '</context></decision></definitions>')
+        _, out, _ = replay_call(rb, ["model_eval", xml, "d", "{}"])
+        want = "VALUE {a: 1, b: {a: 2, r: 20}, c: 1}"
+        return out.strip() != want, "decision d = context{a: 1, b: context{a: 2, r: a * 10}, c: a} -> %s, specified %s" % (out[:80], want[6:])
+    jobs.append(lambda c: decide(c, crate_me, "scope_balance/build_context_evaluator", setup_boxed, post_boxed, replay_boxed, rb, models=MODELS, unwind=12,
+                                 describe=lambda m, inputs: {k: (bool(model_value(m, v)) if k == "has_result_entry" else model_value(m, v)) for k, v in inputs.items() if not k.startswith("_")},
+                                 need_reach=["reach:two entries and a result"], budget_s=600, min_paths=2, timeout_ms=20000))
     # context literals and positional calls of user-defined functions push contexts too (obligations shared with C01: scope restored,
     # exactly one temporary context on top of the caller's while sub-expressions run)
     import checks.C01_ops as ops
